@@ -251,7 +251,7 @@ PROPS.update({
 })
 PROPS["C12"] = {
     "level": "other",
-    "lean_modules": ["ApdVerif.Props.C12", "ApdVerif.Props.C12Interval", "ApdVerif.Props.GenTieConsts", "ApdVerif.Props.TransLog", "ApdVerif.Props.C12ExpAcc"],
+    "lean_modules": ["ApdVerif.Props.C12", "ApdVerif.Props.C12Interval", "ApdVerif.Props.GenTieConsts", "ApdVerif.Props.TransLog", "ApdVerif.Props.C12ExpAcc", "ApdVerif.Props.C12LnAcc", "ApdVerif.Props.C12Log10Acc"],
     "theorem_prefixes": ["C12_", "C12I_", "GenTie_ln10", "GenTie_constVals", "C12T_"],
     "streams": [{"stream": "translog", "n": {"quick": 25000, "thorough": 500000}}],
     "projections": ["value", "repr", "flags", "err", "tape", "consts"],
